@@ -186,6 +186,32 @@ theorem binByPhase_spec (edges ip x : List Rat) (hs : edges.Pairwise (· < ·)) 
   rw [hget, hbv, ← hs']
   simp [mean?_of_ne_nil s hne]
 
+/-- with `weights=`: every bin, the last one included, holds the weighted mean Σw·x / Σw of exactly
+    the observations whose phase lies in [e_b, e_{b+1}); empty bins stay missing -/
+theorem binByPhaseW_spec (edges ip w x : List Rat) (hs : edges.Pairwise (· < ·)) (b : Nat)
+    (hb : b + 1 < edges.length) :
+    (binByPhaseW edges ip w x).length = edges.length - 1 ∧
+    ∀ s, s = ((ip.zip (w.zip x)).filter fun p => edges[b] ≤ p.1 ∧ p.1 < edges[b + 1]).map (·.2) →
+      (binByPhaseW edges ip w x)[b]? = some (wmean? s) ∧
+      (s ≠ [] → wmean? s = some (Sig.sum (s.map fun p => p.1 * p.2) / Sig.sum (s.map (·.1)))) := by
+  refine ⟨by simp [binByPhaseW], ?_⟩
+  intro s hs'
+  have hbv : binPairs edges ip w x b = s := by
+    rw [hs']
+    unfold binPairs
+    congr 1
+    apply List.filter_congr
+    intro p _
+    exact decide_eq_decide.mpr (digitize_eq_iff edges p.1 hs b hb)
+  constructor
+  · unfold binByPhaseW
+    simp [List.getElem?_map, List.getElem?_range (show b < edges.length - 1 by omega), hbv]
+  · intro hne
+    unfold wmean?
+    cases s with
+    | nil => exact absurd rfl hne
+    | cons _ _ => simp
+
 /-! ## non-vacuity -/
 
 -- a labelling with a gap and two cycles; any reducer (here: the segment length) sees exactly each cycle
